@@ -173,6 +173,12 @@ def run_property(pid, tier, seed, relock=False, verbose=False):
                 bounded['witnesses'].append(v['witness'])
         if p.returncode != 0 and not out:
             print('NOTE concrete contract search failed to run: %s' % (p.stderr.strip().splitlines()[-1:] or ['?'])[0])
+        if len(qs) > 1:
+            pm = native([os.path.join(HERE, 'vk', 'concrete.py'), 'mixed', str(seed)] + qs, env_extra=budget_env)
+            for q, v in (last_json(pm.stdout) or {}).items():
+                bounded['evaluations'] += v.get('stats', {}).get('calls', 0)
+                if v.get('witness') and not any(w.get('function') == q for w in bounded['witnesses']):
+                    bounded['witnesses'].append(v['witness'])
         bounded['rule'] = ('contract text of each function under contract evaluated on the real function over its small-input domain '
                            '(matrices p<=2 over {0,1,-1,2} exhaustively + seeded random p<=4, node indices -1..4, subsets of 0..3); '
                            'non-trivial = some matrix argument has a non-zero entry; distinct by argument values')
